@@ -9,6 +9,8 @@ CONSTANTS
   BatchDisabled = FALSE
   FixNotif = FALSE
   FixNonRequest = FALSE
+  FixLongWs = FALSE
+  FarChoices = {FALSE}
 INIT Init
 NEXT Next
 VIEW view
